@@ -51,6 +51,9 @@ type scenario struct {
 	Execs      []execSpec `json:"execs"`
 	Order      []int      `json:"order"` // permutation driving the order of the harness actions
 	Timed      bool       `json:"timed"` // actions are spaced by a few hundred microseconds instead of issued back to back
+	// Waiters: callers of the standalone blocking API that are cancelled while every permit is held (a final phase)
+	Waiters       int `json:"waiters,omitempty"`
+	WaitersSpinUs int `json:"waiters_spin_us,omitempty"`
 }
 
 func waitOf(s string) time.Duration {
@@ -328,6 +331,65 @@ func run(sc scenario) (out runOut) {
 	if got != sc.Max {
 		return fail("permit-count", "after everything finished %d permits could be acquired, the bulkhead has %d", got, sc.Max)
 	}
+	// standalone waiters: with every permit held, callers of AcquirePermit / AcquirePermitWithMaxWait wait; each is
+	// cancelled while it waits and must come back without a permit; afterwards exactly Max permits are available again
+	if sc.Waiters > 0 {
+		for i := 0; i < sc.Max; i++ {
+			if !bh.TryAcquirePermit() {
+				return fail("permit-count", "only %d of %d permits could be taken for the standalone waiter phase", i, sc.Max)
+			}
+		}
+		type wres struct {
+			i   int
+			err error
+		}
+		resCh := make(chan wres, sc.Waiters)
+		var cancels []context.CancelFunc
+		for i := 0; i < sc.Waiters; i++ {
+			ctx, cancel := context.WithCancel(context.Background())
+			cancels = append(cancels, cancel)
+			go func(i int) {
+				if i%2 == 0 {
+					resCh <- wres{i, bh.AcquirePermit(ctx)}
+				} else {
+					resCh <- wres{i, bh.AcquirePermitWithMaxWait(ctx, time.Hour)}
+				}
+			}(i)
+		}
+		time.Sleep(time.Duration(sc.WaitersSpinUs) * time.Microsecond)
+		for _, c := range cancels {
+			c()
+		}
+		for i := 0; i < sc.Waiters; i++ {
+			select {
+			case r := <-resCh:
+				if r.err == nil {
+					return fail("standalone-waiter-got-permit", "standalone waiter %d obtained a permit although all %d were held", r.i, sc.Max)
+				}
+				if !errors.Is(r.err, context.Canceled) {
+					return fail("standalone-waiter-error", "standalone waiter %d, cancelled while waiting, returned %v", r.i, r.err)
+				}
+			case <-harness.After(20 * time.Second):
+				for j := 0; j < sc.Max; j++ {
+					bh.ReleasePermit() // let the stuck waiters go
+				}
+				return fail("standalone-waiter-stuck", "a standalone waiter had not returned 20s after its context was cancelled (all %d permits held)", sc.Max)
+			}
+		}
+		for i := 0; i < sc.Max; i++ {
+			bh.ReleasePermit()
+		}
+		got = 0
+		for got <= sc.Max && bh.TryAcquirePermit() {
+			got++
+		}
+		for i := 0; i < got; i++ {
+			bh.ReleasePermit()
+		}
+		if got != sc.Max {
+			return fail("permit-count", "after the cancelled standalone waiters %d permits could be acquired, the bulkhead has %d", got, sc.Max)
+		}
+	}
 	return out
 }
 
@@ -364,6 +426,10 @@ func genScenario(t *rapid.T) scenario {
 	extra := rapid.IntRange(0, 6).Draw(t, "standaloneActions")
 	sc.Order = rapid.Permutation(seq(g+extra)).Draw(t, "order")
 	sc.Timed = rapid.Bool().Draw(t, "timed")
+	if rapid.Bool().Draw(t, "standaloneWaiters") {
+		sc.Waiters = rapid.IntRange(1, 4).Draw(t, "waiters")
+		sc.WaitersSpinUs = rapid.SampledFrom([]int{0, 20, 200}).Draw(t, "waitersSpinUs")
+	}
 	return sc
 }
 
